@@ -21,6 +21,8 @@ open ShpanVerif.Util ShpanVerif.Model ShpanVerif.Drive.Conc
 def expectDel (c : Case) : List Nat :=
   if c.op == "ccons" || c.op == "buf" then List.range c.n
   -- `ptr=1`: the mapper returns a nil pointer for elements i with i % 3 = 1; a nil result is a result (shown as 999)
+  -- `mwf=1`: MapWhileFiltering under the concurrent option: the results of the kept elements (i % 3 ≠ 1), nothing else
+  else if c.kv.flag "mwf" then ((List.range c.n).filter (fun i => i % 3 != 1)).map (· + 1000)
   else if c.kv.flag "ptr" then sortNats ((List.range c.n).map (fun i => if i % 3 == 1 then 999 else i + 1000))
   else (List.range c.n).map (· + 1000)
 
@@ -40,7 +42,7 @@ def model (c : Case) (o : Obs) : String :=
   if !c.failureFree then "C06 cases are failure-free"
   else
     let maxEcho := if o.maxin ≤ min c.c c.n && (c.n == 0 || 1 ≤ o.maxin) then toString o.maxin else s!"<={min c.c c.n}"
-    if c.sync && c.op == "cmap" && !c.kv.flag "ptr" then
+    if c.sync && c.op == "cmap" && !c.kv.flag "ptr" && !c.kv.flag "mwf" then
       let cfg : ConcMap.Cfg := { n := c.n, c := c.c }
       let r := cmReplay cfg c.sg c.cg o.trace
       match r.bad with
